@@ -277,6 +277,42 @@ def infer_mode(fi: FuncInfo, scope: Optional[ast.AST] = None) -> Tuple[str, Set[
     return 'sym', set(), 'same'
 
 
+def family_kind(fam) -> str:
+    """measure of a kernel family, from the public wrapper that dispatches to it"""
+    w = fam.wrapper
+    if w.cls:
+        return 'add'
+    nm = w.name.lower()
+    if 'order' in nm:
+        return 'order'
+    if 'directionality' in nm:
+        return 'dir'
+    if 'filter' in nm:
+        return 'single'
+    if 'sync' in nm:
+        return 'sync'
+    if 'isi' in nm:
+        return 'isi'
+    if 'spike' in nm:
+        return 'spike'
+    return 'unknown'
+
+
+def mode_by_kind(fam, k: FuncInfo) -> Tuple[str, Set[str], str]:
+    from .rules_projection import _returned_names
+    kind = family_kind(fam)
+    ret = _returned_names(k)
+    if kind == 'order':
+        if k is fam.single:
+            return 'anti', set(ret[:1]), 'same'
+        return 'anti', set(ret[1:2]), 'same'
+    if kind == 'dir':
+        if k is fam.single:
+            return 'anti', set(ret[:1]), 'same'
+        return 'sym', set(), 'swap'
+    return 'sym', set(), 'same'
+
+
 def r07_1_symmetry(ctx, eng: SiblingEngine, rule: str = 'R07.1', want_modes=('sym',), only: Optional[Set[str]] = None) -> List[Ob]:
     """sigma obligations for every measure kernel (both backends + single-pass) whose inferred mode is in want_modes;
     helper obligations (dist_at_t symmetry, L5) are included once."""
@@ -292,7 +328,7 @@ def r07_1_symmetry(ctx, eng: SiblingEngine, rule: str = 'R07.1', want_modes=('sy
                 continue
             if only is not None and k.name not in only:
                 continue
-            mode, negs, rk = infer_mode(k, roles.loop[-1])
+            mode, negs, rk = mode_by_kind(fam, k)
             tag = 'anti' if mode == 'anti' else ('swap' if rk == 'swap' else 'sym')
             if tag not in want_modes:
                 continue
